@@ -92,7 +92,7 @@ func scalarJSON(v reflect.Value) (interface{}, bool) {
 		return v.Bool(), true
 	case reflect.Int64:
 		if isEnum(v.Type()) {
-			return enumName(v), true
+			return enumJSONName(v), true
 		}
 		return strconv.FormatInt(v.Int(), 10), true
 	case reflect.Int, reflect.Int8, reflect.Int16, reflect.Int32:
